@@ -8,6 +8,9 @@ CONSTANTS NP = 2
   Skip <- MCNoSkip
   ResOut = 65533
   ResOther = 65531
+  Pipe = "never"
+  MaxBurst = 3
+  LenSet = "all"
   Thin = FALSE
 INIT Init
 NEXT Next
